@@ -346,12 +346,28 @@ def _exec_task(arg):
         return ("err", task["name"], traceback.format_exc())
 
 
+def _child(conn, modname, task):
+    try:
+        conn.send(_exec_task((modname, task)))
+    except BaseException:  # noqa: BLE001
+        try:
+            conn.send(("err", task["name"], traceback.format_exc()))
+        except Exception:  # noqa: BLE001
+            pass
+    finally:
+        conn.close()
+
+
 def run_tasks(modname, tasks, hard_limit_s):
+    """One forked process per task, at most NPROC at a time.  A worker that dies without a result (for
+    example killed by the faulthandler watchdog of a check that claims termination) is reported to the
+    check module's `on_worker_death(pid, task)` hook, which may turn it into a recorded failure."""
     total = Stats()
     errors = []
     if not tasks:
         return total, errors
-    if NPROC <= 1 or len(tasks) == 1:
+    mod = importlib.import_module(modname)
+    if NPROC <= 1:
         for t in tasks:
             kind, name, res = _exec_task((modname, t))
             if kind == "ok":
@@ -360,25 +376,64 @@ def run_tasks(modname, tasks, hard_limit_s):
                 errors.append((name, res))
         return total, errors
     ctx = mp.get_context("fork")
-    pool = ctx.Pool(min(NPROC, len(tasks)))
+    queue = list(tasks)
+    running = {}  # pid -> (process, conn, task, t_start)
+    t_end = time.time() + hard_limit_s
     try:
-        pending = [pool.apply_async(_exec_task, ((modname, t),)) for t in tasks]
-        t_end = time.time() + hard_limit_s
-        for t, p in zip(tasks, pending):
-            remaining = max(1.0, t_end - time.time())
-            try:
-                kind, name, res = p.get(timeout=remaining)
-            except mp.TimeoutError:
-                total.budget_exhausted = True
-                total.notes.append({"task": t["name"], "stopped": "hard limit"})
-                continue
-            if kind == "ok":
-                total.merge(res)
-            else:
-                errors.append((name, res))
+        while queue or running:
+            while queue and len(running) < NPROC:
+                t = queue.pop(0)
+                parent, child = ctx.Pipe(duplex=False)
+                p = ctx.Process(target=_child, args=(child, modname, t))
+                p.daemon = True
+                p.start()
+                child.close()
+                running[p.pid] = (p, parent, t, time.time())
+            done = []
+            for pid, (p, conn, t, t0) in running.items():
+                if conn.poll(0):
+                    try:
+                        kind, name, res = conn.recv()
+                    except (EOFError, OSError):
+                        kind, name, res = "dead", t["name"], None
+                    done.append((pid, kind, name, res))
+                elif not p.is_alive():
+                    # finished between the two tests?
+                    if conn.poll(0.2):
+                        try:
+                            kind, name, res = conn.recv()
+                        except (EOFError, OSError):
+                            kind, name, res = "dead", t["name"], None
+                    else:
+                        kind, name, res = "dead", t["name"], None
+                    done.append((pid, kind, name, res))
+            for pid, kind, name, res in done:
+                p, conn, t, t0 = running.pop(pid)
+                p.join(timeout=5)
+                conn.close()
+                if kind == "ok":
+                    total.merge(res)
+                elif kind == "err":
+                    errors.append((name, res))
+                else:
+                    hook = getattr(mod, "on_worker_death", None)
+                    st = hook(pid, t, p.exitcode) if hook else None
+                    if isinstance(st, Stats):
+                        total.merge(st)
+                    else:
+                        errors.append((name, "worker process %d died (exit code %s) without a result" % (pid, p.exitcode)))
+            if time.time() > t_end and running:
+                for pid, (p, conn, t, t0) in list(running.items()):
+                    p.terminate()
+                    total.budget_exhausted = True
+                    total.notes.append({"task": t["name"], "stopped": "hard limit"})
+                    running.pop(pid)
+                queue = []
+            if not done:
+                time.sleep(0.05)
     finally:
-        pool.terminate()
-        pool.join()
+        for pid, (p, conn, t, t0) in running.items():
+            p.terminate()
     return total, errors
 
 
